@@ -300,12 +300,25 @@ func runC17Routing(c *core.Ctx) {
 				w.Count("route:discriminates:"+scheme+"-vs-"+s, 1)
 			}
 			for _, o := range []string{">=", "<", "=", "!=", ">", "<="} {
-				text := "vers:" + scheme + "/" + o + a
-				w.Count("evaluations", 1)
-				for _, v := range evalC17(c, nil, "vers-route", []string{text, b, strings.Join(disc, ",")}) {
-					if reported < 6 {
-						reported++
-						w.Report(v)
+				// the SAME constraint text under the intended scheme and under the rivals that disagree, in a
+				// PRNG order: each scheme must answer with its own ecosystem whatever was evaluated before
+				body := o + a
+				if r.IntN(2) == 0 {
+					body += "|" + []string{"<", "<=", "!=", ">="}[r.IntN(4)] + b
+				}
+				order := append([]string{scheme}, disc...)
+				if len(order) > 4 {
+					order = order[:4]
+				}
+				r.Shuffle(len(order), func(x, y int) { order[x], order[y] = order[y], order[x] })
+				for _, sc := range order {
+					text := "vers:" + sc + "/" + body
+					w.Count("evaluations", 1)
+					for _, v := range evalC17(c, nil, "vers-route", []string{text, b, strings.Join(disc, ",")}) {
+						if reported < 6 {
+							reported++
+							w.Report(v)
+						}
 					}
 				}
 			}
